@@ -315,6 +315,11 @@ class SolverWrapper:
 
         lbs = _materialize_bounds(lb, 0.0, "lb")
         ubs = _materialize_bounds(ub, 1.0, "ub")
+        if var_type == "integer":
+            # A fractional bound of an integer variable (a float flow value used as a repetition bound) admits the same
+            # integers as its rounding, but HiGHS can wrongly report such models infeasible
+            lbs = [float(math.ceil(b - 1e-9)) if math.isfinite(b) else b for b in lbs]
+            ubs = [float(math.floor(b + 1e-9)) if math.isfinite(b) else b for b in ubs]
 
         if self.external_solver == "highs":
 
